@@ -1,6 +1,370 @@
-//! C09: not implemented yet.
-use crate::util::Args;
-pub fn main(_a: &Args) {
-    eprintln!("c09: not implemented");
-    std::process::exit(2);
+//! C09: the saved tree is a function of the font (byte-identical to a save to a fresh path, no
+//! remains of the prior contents), optional files exist iff their part is non-empty, nothing
+//! outside the target changes.  Fonts: built by recipe, loaded and edited, loaded from crafted
+//! UFOs whose contents.plist / layercontents.plist hold unusual paths.
+use crate::c08::common::*;
+use crate::c08::{fresh_sandbox, make_prior, modify, prepare_loaded, run_save, Prepared, Prior, PRIORS};
+use crate::util::*;
+use norad::{DataRequest, Font};
+use std::collections::BTreeSet;
+use std::fmt::Write as _;
+use std::path::Path;
+
+const GLIF: &str = "<?xml version=\"1.0\" encoding=\"UTF-8\"?>\n<glyph name=\"NAME\" format=\"2\">\n    <advance width=\"WIDTH\"/>\n  <outline>\n  </outline>\n</glyph>\n";
+
+fn glif(name: &str, width: u32) -> String {
+    GLIF.replace("NAME", name).replace("WIDTH", &width.to_string())
+}
+fn plist_dict(entries: &[(String, String)]) -> String {
+    let mut s = String::from("<?xml version=\"1.0\" encoding=\"UTF-8\"?>\n<!DOCTYPE plist PUBLIC \"-//Apple//DTD PLIST 1.0//EN\" \"http://www.apple.com/DTDs/PropertyList-1.0.dtd\">\n<plist version=\"1.0\">\n<dict>\n");
+    for (k, v) in entries {
+        let _ = write!(s, "\t<key>{}</key>\n\t<string>{}</string>\n", k, v);
+    }
+    s.push_str("</dict>\n</plist>\n");
+    s
+}
+fn plist_pairs(entries: &[(String, String)]) -> String {
+    let mut s = String::from("<?xml version=\"1.0\" encoding=\"UTF-8\"?>\n<plist version=\"1.0\">\n<array>\n");
+    for (k, v) in entries {
+        let _ = write!(s, "\t<array>\n\t\t<string>{}</string>\n\t\t<string>{}</string>\n\t</array>\n", k, v);
+    }
+    s.push_str("</array>\n</plist>\n");
+    s
+}
+const METAINFO: &str = "<?xml version=\"1.0\" encoding=\"UTF-8\"?>\n<plist version=\"1.0\">\n<dict>\n\t<key>creator</key>\n\t<string>org.example.crafted</string>\n\t<key>formatVersion</key>\n\t<integer>3</integer>\n</dict>\n</plist>\n";
+
+/// what a crafted source holds: (variant name, notes)
+pub fn write_crafted(sb: &Path, variant: u64, r: &mut Rng) -> (String, bool) {
+    // returns (description, load with data requested?)
+    let src = sb.join("src.ufo");
+    std::fs::create_dir_all(src.join("glyphs")).unwrap();
+    std::fs::write(src.join("metainfo.plist"), METAINFO).unwrap();
+    let mut layers: Vec<(String, String)> = vec![("public.default".into(), "glyphs".into())];
+    let mut contents: Vec<(String, String)> = vec![("a".into(), "a.glif".into())];
+    std::fs::write(src.join("glyphs/a.glif"), glif("a", 500)).unwrap();
+    let mut with_data = true;
+    let desc;
+    match variant {
+        0 => {
+            // the witness of F8: a glif path that climbs out of the layer directory and the UFO
+            contents.push(("evil".into(), "../../outside.glif".into()));
+            std::fs::write(sb.join("outside.glif"), glif("evil", 1)).unwrap();
+            desc = "glif path ../../outside.glif";
+        }
+        1 => {
+            contents.push(("dot".into(), "./dot.glif".into()));
+            std::fs::write(src.join("glyphs/dot.glif"), glif("dot", 2)).unwrap();
+            desc = "glif path ./dot.glif";
+        }
+        2 => {
+            let abs = sb.join("abs.glif");
+            contents.push(("abs".into(), abs.to_string_lossy().to_string()));
+            std::fs::write(&abs, glif("abs", 3)).unwrap();
+            desc = "absolute glif path";
+        }
+        3 => {
+            contents.push(("nested".into(), "sub/n.glif".into()));
+            std::fs::create_dir_all(src.join("glyphs/sub")).unwrap();
+            std::fs::write(src.join("glyphs/sub/n.glif"), glif("nested", 4)).unwrap();
+            desc = "glif path sub/n.glif (directory missing at save)";
+        }
+        4 => {
+            // a layer whose directory is called data; loaded without the data store
+            layers.push(("odd".into(), "data".into()));
+            std::fs::create_dir_all(src.join("data")).unwrap();
+            std::fs::write(src.join("data/contents.plist"), plist_dict(&[("b".into(), "b.glif".into())])).unwrap();
+            std::fs::write(src.join("data/b.glif"), glif("b", 5)).unwrap();
+            with_data = false;
+            desc = "layer directory named data, data not requested";
+        }
+        5 => {
+            layers.push(("odd".into(), "data".into()));
+            std::fs::create_dir_all(src.join("data")).unwrap();
+            std::fs::write(src.join("data/contents.plist"), plist_dict(&[("b".into(), "b.glif".into())])).unwrap();
+            std::fs::write(src.join("data/b.glif"), glif("b", 5)).unwrap();
+            desc = "layer directory named data, data requested (files double as data entries)";
+        }
+        6 => {
+            // nested layer directory: only the last component is kept
+            layers.push(("deep".into(), "sub/glyphs.deep".into()));
+            std::fs::create_dir_all(src.join("sub/glyphs.deep")).unwrap();
+            std::fs::write(src.join("sub/glyphs.deep/contents.plist"), plist_dict(&[])).unwrap();
+            desc = "layer directory sub/glyphs.deep";
+        }
+        7 => {
+            // two layers on one directory: the second create_dir fails after the wipe
+            layers.push(("x".into(), "glyphs.x".into()));
+            layers.push(("y".into(), "glyphs.x".into()));
+            std::fs::create_dir_all(src.join("glyphs.x")).unwrap();
+            std::fs::write(src.join("glyphs.x/contents.plist"), plist_dict(&[("c".into(), "c.glif".into())])).unwrap();
+            std::fs::write(src.join("glyphs.x/c.glif"), glif("c", 6)).unwrap();
+            desc = "two layers share the directory glyphs.x";
+        }
+        8 => {
+            // a second layer whose path ends in `glyphs`: two default directories
+            layers.push(("twin".into(), "other/glyphs".into()));
+            std::fs::create_dir_all(src.join("other/glyphs")).unwrap();
+            std::fs::write(src.join("other/glyphs/contents.plist"), plist_dict(&[])).unwrap();
+            desc = "layer directory other/glyphs (same final component as the default layer)";
+        }
+        9 => {
+            contents.push(("up".into(), "../up.glif".into()));
+            std::fs::write(src.join("up.glif"), glif("up", 7)).unwrap();
+            desc = "glif path ../up.glif (stays inside the target)";
+        }
+        10 => {
+            // glif written into a sibling layer directory
+            layers.push(("bg".into(), "glyphs.bg".into()));
+            std::fs::create_dir_all(src.join("glyphs.bg")).unwrap();
+            std::fs::write(src.join("glyphs.bg/contents.plist"), plist_dict(&[])).unwrap();
+            contents.push(("cross".into(), "../glyphs.bg/cross.glif".into()));
+            std::fs::write(src.join("glyphs.bg/cross.glif"), glif("cross", 8)).unwrap();
+            desc = "glif path ../glyphs.bg/cross.glif";
+        }
+        _ => {
+            layers.push(("img".into(), "images".into()));
+            std::fs::create_dir_all(src.join("images")).unwrap();
+            std::fs::write(src.join("images/contents.plist"), plist_dict(&[])).unwrap();
+            with_data = false;
+            desc = "layer directory named images, images not requested";
+        }
+    }
+    // a few more ordinary things around it
+    if r.chance(1, 2) {
+        contents.push(("z".into(), "z_.glif".into()));
+        std::fs::write(src.join("glyphs/z_.glif"), glif("z", 9)).unwrap();
+    }
+    if r.chance(1, 2) && variant != 4 && variant != 5 && variant < 11 {
+        std::fs::create_dir_all(src.join("data/k")).unwrap();
+        std::fs::write(src.join("data/k/v.bin"), b"v").unwrap();
+    }
+    std::fs::write(src.join("glyphs/contents.plist"), plist_dict(&contents)).unwrap();
+    std::fs::write(src.join("layercontents.plist"), plist_pairs(&layers)).unwrap();
+    (desc.to_string(), with_data)
+}
+pub const N_CRAFTED: u64 = 12;
+
+pub fn prepare_crafted(sb: &Path, variant: u64, r: &mut Rng) -> Option<Prepared> {
+    let (desc, with_data) = write_crafted(sb, variant, r);
+    let src = sb.join("src.ufo");
+    let req = if with_data { DataRequest::all() } else { DataRequest::all().data(false).images(false) };
+    let font = match catch(|| Font::load_requested_data(&src, req)) {
+        Ok(Ok(f)) => f,
+        _ => return None,
+    };
+    let shadow = Shadow::opened(&font, &split_rel("src.ufo"));
+    Some(Prepared {
+        font,
+        shadow,
+        groups_ok: true,
+        info_valid: true,
+        loaded_from: Some(split_rel("src.ufo")),
+        preserve: BTreeSet::new(),
+        notes: vec![format!("crafted UFO: {}", desc)],
+    })
+}
+
+/// the classes of the known findings, on the real font
+pub fn class_f8(f: &Font) -> bool {
+    f.layers.iter().any(|l| {
+        !single_normal(l.path())
+            || l.iter().any(|g| l.get_path(g.name()).map(|p| !single_normal(p)).unwrap_or(false))
+    })
+}
+const TOP_RESERVED: [&str; 9] = [
+    "data", "images", "metainfo.plist", "fontinfo.plist", "lib.plist", "groups.plist", "kerning.plist", "features.fea",
+    "layercontents.plist",
+];
+pub fn class_reserved(f: &Font) -> bool {
+    let mut seen = BTreeSet::new();
+    for l in f.layers.iter() {
+        let d = l.path().to_string_lossy().to_string();
+        if TOP_RESERVED.contains(&d.as_str()) || !seen.insert(d) {
+            return true;
+        }
+        for g in l.iter() {
+            if let Some(p) = l.get_path(g.name()) {
+                let n = p.to_string_lossy().to_string();
+                if n == "contents.plist" || n == "layerinfo.plist" {
+                    return true;
+                }
+            }
+        }
+    }
+    false
+}
+
+fn subtree(s: &Snap, root: &str) -> Snap {
+    let mut o = Snap::new();
+    let pre = format!("{}/", root);
+    for (k, v) in s {
+        if k == root {
+            o.insert(String::new(), v.clone());
+        } else if let Some(r) = k.strip_prefix(&pre) {
+            o.insert(r.to_string(), v.clone());
+        }
+    }
+    o
+}
+fn outside(s: &Snap, root: &str) -> Snap {
+    let pre = format!("{}/", root);
+    s.iter().filter(|(k, _)| *k != root && !k.starts_with(&pre)).map(|(k, v)| (k.clone(), v.clone())).collect()
+}
+
+pub struct CaseOut {
+    pub gallina: String,
+    pub json: String,
+}
+
+pub fn case(seed: u64, idx: u64, out: &Path, verbose: bool, force_variant: Option<u64>) -> CaseOut {
+    let mut r = Rng::new(seed.wrapping_mul(0x9E37_79B9_7F4A_7C15) ^ idx.wrapping_mul(0xD1B5_4A32_D192_ED03) ^ 0x0909);
+    let sb = fresh_sandbox(out, "sb9", idx);
+    let kind = if force_variant.is_some() {
+        2
+    } else {
+        match r.below(20) {
+            0..=7 => 0,
+            8..=12 => 1,
+            _ => 2,
+        }
+    };
+    let mut variant = 99;
+    let mut p = match kind {
+        0 => {
+            let rc = Recipe::random_valid(&mut r);
+            let (font, shadow) = build_font(&rc);
+            Prepared { font, shadow, groups_ok: true, info_valid: true, loaded_from: None, preserve: BTreeSet::new(), notes: vec![] }
+        }
+        1 => {
+            let mut p = prepare_loaded(&sb, &mut r, false);
+            modify(&mut p, &mut r);
+            p
+        }
+        _ => {
+            variant = force_variant.unwrap_or_else(|| idx % N_CRAFTED);
+            match prepare_crafted(&sb, variant, &mut r) {
+                Some(p) => p,
+                None => {
+                    // the crafted source does not load: nothing to save, an uninteresting case
+                    let (font, shadow) = build_font(&Recipe::plain());
+                    Prepared { font, shadow, groups_ok: true, info_valid: true, loaded_from: None, preserve: BTreeSet::new(), notes: vec![format!("crafted variant {} does not load", variant)] }
+                }
+            }
+        }
+    };
+    if kind == 2 && r.chance(1, 3) {
+        modify(&mut p, &mut r);
+    }
+    let in_place = p.loaded_from.is_some() && r.chance(1, 3);
+    let prior = if in_place { Prior::Absent } else { PRIORS[((idx / 3) % 6) as usize] };
+    let target_rel: Vec<String> = if in_place { split_rel("src.ufo") } else { split_rel("zone/t.ufo") };
+    if !in_place {
+        make_prior(&sb.join(target_rel.join("/")), prior, &mut r);
+    }
+    let run = run_save(&p, out, idx, &sb, &target_rel);
+    // ------------------------------------------------------------ property oracle
+    let troot = target_rel.join("/");
+    let mut fail_tree: Vec<String> = vec![];
+    let mut fail_frame: Vec<String> = vec![];
+    let mut fail_opt: Vec<String> = vec![];
+    let saved = run.obs.1 == "Saved";
+    // a directory (or nothing) at the target must not influence whether the save succeeds
+    if saved != run.ref_ok && prior != Prior::PlainFile {
+        fail_tree.push(format!("save to the target: {}, save of the same font to a fresh path: {}", run.obs.1, if run.ref_ok { "Saved" } else { "failed" }));
+    }
+    let frame_before = outside(&run.before, &troot);
+    let frame_after = outside(&run.after, &troot);
+    if frame_before != frame_after {
+        fail_frame.push(format!("outside the target: {}", snap_diff(&frame_before, &frame_after).join(", ")));
+    }
+    if saved && run.ref_ok {
+        let got = subtree(&run.after, &troot);
+        let want = subtree(&run.reftree, &troot);
+        if got != want {
+            fail_tree.push(format!("target differs from a save to a fresh path: {}", snap_diff(&want, &got).join(", ")));
+        }
+        let f = &p.font;
+        let is_file = |rel: &str| matches!(got.get(rel), Some(Some(_)));
+        let is_dir = |rel: &str| matches!(got.get(rel), Some(None));
+        let glib = f.guidelines().iter().any(|g| g.lib().is_some());
+        let mut opt = |rel: String, nonempty: bool, dir: bool| {
+            let there = if dir { is_dir(&rel) } else { is_file(&rel) };
+            if there != nonempty {
+                fail_opt.push(format!("{} {} although its part is {}", rel, if there { "exists" } else { "is missing" }, if nonempty { "non-empty" } else { "empty" }));
+            }
+        };
+        opt("fontinfo.plist".into(), !f.font_info.is_empty(), false);
+        opt("lib.plist".into(), !f.lib.is_empty() || glib, false);
+        opt("groups.plist".into(), !f.groups.is_empty(), false);
+        opt("kerning.plist".into(), !f.kerning.is_empty(), false);
+        opt("features.fea".into(), !f.features.is_empty(), false);
+        opt("data".into(), !f.data.is_empty(), true);
+        opt("images".into(), !f.images.is_empty(), true);
+        opt("metainfo.plist".into(), true, false);
+        opt("layercontents.plist".into(), true, false);
+        for l in f.layers.iter() {
+            let d = l.path().to_string_lossy().to_string();
+            opt(format!("{}/layerinfo.plist", d), l.color.is_some() || !l.lib.is_empty(), false);
+            opt(format!("{}/contents.plist", d), true, false);
+        }
+    }
+    let c_f8 = class_f8(&p.font);
+    let c_res = class_reserved(&p.font);
+    let mut json = String::new();
+    let _ = write!(
+        json,
+        "{{\"i\":{},\"kind\":{},\"variant\":{},\"prior\":{},\"in_place\":{},\"obs\":{},\"ref_ok\":{},\"fail_tree\":{},\"fail_frame\":{},\"fail_opt\":{},\"class_f8\":{},\"class_reserved\":{},\"notes\":{},\"files\":{}}}",
+        idx,
+        kind,
+        variant,
+        json_str(&format!("{:?}", prior)),
+        in_place,
+        json_str(&run.obs.1),
+        run.ref_ok,
+        serde_json::to_string(&fail_tree).unwrap(),
+        serde_json::to_string(&fail_frame).unwrap(),
+        serde_json::to_string(&fail_opt).unwrap(),
+        c_f8,
+        c_res,
+        serde_json::to_string(&p.notes).unwrap(),
+        subtree(&run.after, &troot).len()
+    );
+    if verbose {
+        println!("case {}: kind={} variant={} prior={:?} in_place={} notes={:?}", idx, kind, variant, prior, in_place, p.notes);
+        println!("observed: {} (fresh-path save ok: {})", run.obs.1, run.ref_ok);
+        println!("changes: {:?}", snap_diff(&run.before, &run.after));
+        println!("tree check: {:?}\nframe check: {:?}\noptional files: {:?}", fail_tree, fail_frame, fail_opt);
+        println!("class F8 (non-plain loaded path): {}; class reserved-name: {}", c_f8, c_res);
+    }
+    let _ = std::fs::remove_dir_all(&sb);
+    CaseOut { gallina: run.gallina, json }
+}
+
+pub fn main(a: &Args) {
+    std::fs::create_dir_all(&a.out).unwrap();
+    if let Some(rp) = &a.replay {
+        // replay file: "<seed> <index>" or "variant <n>" (corpus witness)
+        let t = std::fs::read_to_string(rp).unwrap();
+        let w: Vec<&str> = t.split_whitespace().collect();
+        let c = if w[0] == "variant" {
+            case(1, w[1].parse::<u64>().unwrap() * 3, &a.out, true, Some(w[1].parse().unwrap()))
+        } else {
+            case(w[0].parse().unwrap(), w[1].parse().unwrap(), &a.out, true, None)
+        };
+        println!("{}", c.json);
+        return;
+    }
+    let n: u64 = if a.thorough() { 15000 } else { 800 };
+    let mut g = String::new();
+    let mut j = String::new();
+    // corpus first: the witness of F8 (crafted variant 0), saved elsewhere
+    for i in 0..n {
+        let c = if i == 0 { case(a.seed, 0, &a.out, false, Some(0)) } else { case(a.seed, i, &a.out, false, None) };
+        g.push_str(&c.gallina);
+        g.push('\n');
+        j.push_str(&c.json);
+        j.push('\n');
+    }
+    write_file(&a.out.join("cases.txt"), &g);
+    write_file(&a.out.join("oracle.jsonl"), &j);
 }
